@@ -172,6 +172,20 @@ class Rewriter(ast.NodeTransformer):
     return node
 
   # -- R4 containers keyed by possibly-symbolic values
+  def visit_ClassDef(self, node):
+    for i, b in enumerate(node.bases):
+      if isinstance(b, ast.Name) and b.id == 'dict': node.bases[i] = _sx('SymDict')
+      elif isinstance(b, ast.Name) and b.id == 'set': node.bases[i] = _sx('SymSet')
+    self.generic_visit(node)
+    return node
+
+  def visit_Attribute(self, node):
+    self.generic_visit(node)
+    if isinstance(node.ctx, ast.Load) and isinstance(node.value, ast.Name) and node.value.id in ('dict', 'set') \
+       and not self._shadowed(node.value.id) and node.attr.startswith('__'):
+      node.value = _sx('SymDict' if node.value.id == 'dict' else 'SymSet')     # dict.__contains__(self, k) inside dict subclasses
+    return node
+
   def visit_Set(self, node):
     self.generic_visit(node)
     return ast.Call(func=_sx('set_'), args=[ast.List(elts=node.elts, ctx=ast.Load())], keywords=[])
